@@ -351,6 +351,12 @@ type params struct {
 	// maxStart: the command starts at tick <= maxStart.
 	maxStart int
 	timer    bool // exercise NewTimer instead of NewContextWithTimeout
+	// exec: the clock is exercised through the REAL
+	// builder.NewLocalBuildExecutor(...).Execute() (see exec_test.go); maxPre:
+	// number of ticks that may pass between the consumption of the
+	// FetchingInputs update and the entry of runner.Run.
+	exec   bool
+	maxPre int
 }
 
 type world struct {
@@ -390,6 +396,9 @@ type world struct {
 	tmr       clock.Timer
 	tmrCh     <-chan time.Time
 	startDump string
+
+	// Executor scenarios (exec_test.go).
+	ex execState
 }
 
 func (w *world) fail(fingerprint, format string, args ...any) {
@@ -432,4 +441,36 @@ func (w *world) upperWall() int { return w.limit() + w.lateCap }
 // inWindow: may the timeout be raised at the current instant?
 func (w *world) inWindow() bool {
 	return (w.lower() <= w.u && w.u <= w.upperU()) || (w.limit() <= w.wall && w.wall <= w.upperWall())
+}
+
+// ---------------------------------------------------------------------------
+// Executor scenarios (see exec_test.go): state of the fakes around the real
+// localBuildExecutor and the reference snapshot taken when runner.Run returns.
+
+type execState struct {
+	fetchGate *gate // MergeDirectoryContents blocks here ("fetching inputs")
+	consGate  *gate // the consumer of executionStateUpdates blocks here before every receive
+	// consumed: number of updates received by the consumer; lastUpdate: kind
+	// of the most recent one.
+	consumed   int
+	lastUpdate string
+	// preTicks: ticks taken before runner.Run was entered; fetched: the
+	// input root has been merged; returned: Execute has returned.
+	preTicks int
+	fetched  bool
+	returned bool
+	snap     execSnapshot
+}
+
+// execSnapshot: the reference accounting of the command's run interval
+// [runner.Run entered, runner.Run returned], frozen at its end.
+type execSnapshot struct {
+	taken    bool
+	own      bool  // the command finished by itself (the runner returns its own result)
+	ctxErr   error // otherwise: the error of the run context that ended the command
+	wall, u  int
+	inWindow bool
+	late     bool
+	lo       int // smallest acceptable reported duration (see world.judge)
+	window   string
 }
